@@ -743,3 +743,23 @@ impl Prop for C03 {
         out
     }
 }
+
+/// Generated valid (and mutated) texts for a fuzz corpus: `n` inputs for the entry point, each with the
+/// two-byte header the fuzz targets expect.
+pub fn corpus_texts(target: Target, n: usize, seed: u64) -> Vec<Vec<u8>> {
+    use proptest::strategy::ValueTree;
+    use proptest::test_runner::{Config, RngAlgorithm, TestRng, TestRunner};
+    let mut bytes = [0u8; 32];
+    bytes[..8].copy_from_slice(&seed.to_le_bytes());
+    let mut runner = TestRunner::new_with_rng(Config::default(), TestRng::from_seed(RngAlgorithm::ChaCha, &bytes));
+    let strat = base_text(target, Tier::Quick);
+    let mut out = Vec::new();
+    for i in 0..n {
+        if let Ok(t) = strat.new_tree(&mut runner) {
+            let mut v = vec![(i % 12) as u8 + 10, 0u8];
+            v.extend(t.current());
+            out.push(v);
+        }
+    }
+    out
+}
